@@ -4,10 +4,8 @@ From Compio.Thm Require Import TaskThm.
 Local Open Scope nat_scope.
 Local Opaque Nat.ltb Nat.eqb Nat.leb.
 
-Lemma sched_pres_5 s l s' : part l = 5 -> Gsched s -> step fixed s l = Some s' -> Gsched s'.
+Lemma polls_only_exec_8 s l s' : part l = 8 -> step fixed s l = Some s' -> polls s' <> polls s -> l = EPollBegin.
 Proof.
-  intros Hp. intros HI Hs. pres_start_part s l Hs Hp.
-  all: destruct HI; constructor; cbn in *.
-  all: try assumption.
-  all: fin2.
+  intros Hp Hs. pres_start_part s l Hs Hp; cbn; intros Hne; try reflexivity; exfalso; apply Hne; reflexivity.
 Qed.
+
